@@ -463,6 +463,7 @@ func execCase(c proto.Case, o *proto.Out) []string {
 				continue
 			}
 			w.ctl.ClearFaults()
+			w.ctl.ReleaseAll() // nobody may stay parked at the publish point from an aborted case
 			w.ctl.Gate(yieldPoint, false)
 			w.ha.set(0)
 			w.writeTree(entries)
